@@ -228,7 +228,14 @@ func solveFunction(fr *FuncResult, opts CheckOpts) {
 				sr.Status = "failed"
 				sr.FailPath = o.Path
 				sr.FailStat = o.Res.Status
-				sr.Model = o.Res.Model
+				sr.Model = map[string]string{}
+				for k, v := range o.Res.Model {
+					if nn, ok := ex.inputNames[k]; ok {
+						sr.Model[nn] = v
+					} else {
+						sr.Model[k] = v
+					}
+				}
 				sr.SolverOut = truncate(o.Res.Output, 4000)
 				sr.Descr = o.Descr
 				sr.Pos = o.Pos
